@@ -4,7 +4,9 @@
    A command line is a sequence of UNITS [k, t]: t = the tokens the unit is written with (atomic strings),
      k = "name" (a command name of the path)   "pos" (a positional value)      "own" (an option of the command,
          with its value if it takes one: never split)   "sw" (one of the global switch tokens)
-         "dd" (the token "--")                  "lit" (a token after "--"; may look like a switch).
+         "dd" (the token "--")                  "lit" (a token after "--"; may look like a switch)
+         "glob" (a global option that is not one of the switch tokens: --verbose, --verbose=N; every command knows it,
+                 it has none of the effects - the verbosity is chosen by -v / -vv / -vvv only).
    The application is fixed (Cmd below): pkg <name> [rest..] [-o|--opt VALUE] [-f|--flag];  srv with the
    sub-commands add <host> [rest..] and list [rest..] [-a|--all] (list is srv's default sub-command);
    top [rest..];  grp, a container WITHOUT a handler of its own, with the sub-command one [rest..];  lazy [rest..], whose
@@ -88,7 +90,9 @@ RunsFor(c) == IF Cmd[c].dsub # "" THEN Cmd[c].dsub ELSE c
 \* the placements the statement speaks of: the command path comes first and is complete, switches follow it (the
 \* resolver reads command names only up to the first option), bare -v (optional value) is not followed by a value
 PathFirst(line) == \A i \in 1..Len(line) : line[i].k = "name" => i <= NNames(line)
-BareVOK(line) == \A i \in 1..Len(line) : (line[i].k = "sw" /\ line[i].t = <<"-v">> /\ i < Len(line)) => line[i + 1].k \notin {"pos", "name"}
+\* -v and --verbose take an optional value: a following plain token would be that value; a following switch or "--" is not
+BareOpt(u) == (u.k = "sw" /\ u.t = <<"-v">>) \/ (u.k = "glob" /\ u.t = <<"--verbose">>)
+BareVOK(line) == \A i \in 1..Len(line) : (BareOpt(line[i]) /\ i < Len(line)) => line[i + 1].k \notin {"pos", "name"}
 LitsLast(line) == \A i \in 1..Len(line) : (line[i].k = "lit") = (i > DDIndex(line))
 InScope(line) ==
   /\ PathFirst(line) /\ BareVOK(line) /\ LitsLast(line)
